@@ -10,7 +10,7 @@ import pyfvtool as pf
 
 from ..oracles import CLASSES, NDIM, SIDES, AXKIND, Geom
 from .. import gen, ops
-from ..common import SpySolver, interior_index, to_list
+from ..common import SpySolver, interior_index, to_list, solve_with
 
 ID = 'C07'
 RULE = ('cases = (grid class, N, spacing family, BC kind per side in {Dirichlet with face-wise data, no-flux, periodic}, D>=0 field '
@@ -129,10 +129,20 @@ def run_case(case):
     if dive > 1e-11 or any(np.any(a < 0) for a in D) or (beta is not None and np.any(beta < 0)):
         return {'verdict': 'inconclusive', 'key': 'precondition', 'msg': 'generator precondition failed (div %.3g)' % dive, 'nontrivial': False,
                 'cov': {'precondition_failed': 1}}
+    Tu = 1.0
+    if case.get('tunit'):
+        # time measured in another unit (nanosecond steps; or slow processes stepped in gigaseconds): rates x 1/T, steps x T
+        Tu = float(10 ** (rng.uniform(-12, -9) if rng.random() < 0.6 else rng.uniform(8, 11)))
+        D = [a / Tu for a in D]
+        u = [a / Tu for a in u]
+        if beta is not None:
+            beta = beta / Tu
+        cov['time_unit:%s' % ('small' if Tu < 1 else 'large')] = 1
     BC = gen.make_bc(pf, m, g, spec)
     phi = pf.CellVariable(m, vals.copy(), BC)
     Df, uf = gen.facevar(pf, m, D), gen.facevar(pf, m, u)
     edit_bcs = bool(rng.random() < 0.5)
+    edit_vals = bool(rng.random() < 0.4)
     rebuild = bool(rng.random() < 0.7)       # terms rebuilt every step from the same coefficient objects (typical time loop) or built once
     Mdiff = -pf.diffusionTerm(Df)
     Mconv = pf.convectionUpwindTerm(uf) if 'upwind' in tset else None
@@ -145,9 +155,24 @@ def run_case(case):
     known_only = True
     with np.errstate(all='ignore'):
         for step in range(nsteps):
-            dt = float(10 ** rng.uniform(-4, 4))
-            alpha = float(10 ** rng.uniform(-1, 1))
+            dt = float(10 ** rng.uniform(-4, 4)) * Tu
+            if case.get('tunit') and step > 0 and rng.random() < 0.5:
+                dt = dts[-1] * float(rng.choice([0.5, 2.0, 0.8, 1.25]))       # adaptive stepping: halve / double / adjust the previous step
+            alpha = float(10 ** rng.uniform(-1, 1)) if not (case.get('tunit') and rng.random() < 0.5) else 1.0
             dts.append(dt)
+            if step > 0 and edit_vals and rng.random() < 0.6:
+                # the field itself is edited between steps through the public setter (operator splitting, a flush, a reset of
+                # part of the domain): the admissible range of the next step is that of the edited field
+                cur = np.array(phi.value, copy=True)
+                howv = str(rng.choice(['relax', 'patch', 'scale']))
+                if howv == 'relax':
+                    phi.value = 0.5 * (cur + float(np.median(cur)))
+                elif howv == 'patch':
+                    cur[tuple(rng.integers(0, n_) for n_ in cur.shape)] = float(rng.choice([float(cur.min()), float(cur.max()), 0.5 * float(cur.min() + cur.max())]))
+                    phi.value = cur
+                else:
+                    phi.value = cur * 0.5
+                cov['value_edit_between_steps'] = cov.get('value_edit_between_steps', 0) + 1
             prev = np.array(phi.value, copy=True)
             if step > 0 and edit_bcs and rng.random() < 0.6:
                 # boundary data switched between steps through the public setters (a feed turned on or off, a wall opened)
@@ -184,7 +209,7 @@ def run_case(case):
             if Mbeta is not None:
                 terms.append(Mbeta)
             spy = SpySolver()
-            pf.solvePDE(phi, terms, externalsolver=spy)
+            solve_with(pf, spy, phi, terms, default_path=bool(case['seed'][-1] % 2))
             Mx, b, x = spy.last
             new = np.asarray(phi.value)
             if not np.all(np.isfinite(new)):
@@ -199,10 +224,23 @@ def run_case(case):
             n = Mx.shape[0]
             scale = (hi - lo) + max(abs(lo), abs(hi))
             tol = 1e-9 * scale + 100 * n * EPS * (1 + dt / alpha * rowmax) * float(np.max(np.abs(x)))
+            # the sparse direct solve (SuperLU simple driver, no equilibration) is backward stable norm-wise only: relative to a
+            # boundary row that is tiny next to the interior rows (nanosecond steps: alpha/dt ~ 1e12 next to b = 1) its error is
+            # amplified by the ratio of the row scales (observed 6e-7 relative on the unchanged tree at ratio 1e14)
+            srow = np.asarray(A @ np.abs(x)).ravel() + np.abs(b)
+            gmask = np.ones(n, dtype=bool)
+            gmask[rows] = False
+            sb = srow[gmask]
+            sb = sb[sb > 0]
+            amp = float(np.max(srow)) / float(np.min(sb)) if sb.size else 1.0
+            tol += 64 * n * EPS * amp * float(np.max(np.abs(x)))
+            if tol > 1e-2 * scale:
+                cov['steps_not_decidable_row_scaling'] = cov.get('steps_not_decidable_row_scaling', 0) + 1
+                continue
             over = max(float(new.max()) - hi, lo - float(new.min()), 0.0)
             worst = max(worst, over / (scale + 1e-300))
             cov['steps'] = cov.get('steps', 0) + 1
-            if dt >= 1e3 or dt <= 1e-3:
+            if dt >= 1e3 * Tu or dt <= 1e-3 * Tu:
                 cov['extremal_dt_steps'] = cov.get('extremal_dt_steps', 0) + 1
             if over > tol:
                 zr, zmax = z_matrix_rows(Mx, g) if Mx.shape[0] <= 1500 else (None, None)
@@ -229,7 +267,7 @@ def run_case(case):
         cov['bc:' + s_['kind']] = 1
     if spec['periodic']:
         cov['bc:periodic'] = 1
-    key = '%s/%s/%s/%s/%s/%s/%s/%s' % (cls, meta['n'], meta['family'], kv, flowfam, tset, bool(use_beta), [int(np.log10(d)) for d in dts])
+    key = '%s/%s/%s/%s/%s/%s/%s/%s' % (cls, meta['n'], meta['family'], kv, flowfam, tset, bool(use_beta), [int(np.log10(d / Tu)) for d in dts])
     sample = {'grid': gen.describe_grid(meta, faces), 'bc': kv, 'flow': flowfam, 'terms': tset, 'beta': bool(use_beta), 'dts': dts, 'field': ffam}
     if bad:
         return {'verdict': 'violated', 'mech': bad[0][0], 'key': key, 'cov': cov, 'maxerr': maxerr, 'nontrivial': True,
@@ -243,6 +281,7 @@ def plan(tier, seed):
     chunks = []
     for ci, cls in enumerate(CLASSES):
         cases = [{'cls': cls, 'seed': [seed, 7, ci, i], 'family': gen.FAMILIES[i % 5] if i % 3 else None} for i in range(per)]
+        cases += [{'cls': cls, 'seed': [seed, 7, ci, 200000 + i], 'family': gen.FAMILIES[i % 5] if i % 2 else None, 'tunit': True} for i in range(per // 4)]
         if NDIM[cls] > 1:
             cases += [{'cls': cls, 'seed': [seed, 7, ci, 100000 + i], 'family': gen.FAMILIES[i % 5] if i % 2 else None, 'thin': True} for i in range(per // 3)]
         step = 10 if NDIM[cls] == 3 else 30
@@ -257,7 +296,7 @@ def floors(agg, tier):
         if agg['cov'].get('cases:' + cls, 0) < 20:
             out.append('cases:%s < 20' % cls)
     for k, need in (('bc:D', 50), ('bc:N0', 50), ('bc:periodic', 20), ('flow:uniform', 3), ('flow:radial', 3), ('flow:stream-walls', 10),
-                    ('flow:stream-open', 5), ('flow:axis', 10), ('terms:D', 10), ('terms:D+upwind', 10), ('extremal_dt_steps', 50), ('steps', 300), ('thin_grid', 50),
+                    ('flow:stream-open', 5), ('flow:axis', 10), ('terms:D', 10), ('terms:D+upwind', 10), ('extremal_dt_steps', 50), ('steps', 300), ('thin_grid', 50), ('time_unit:small', 30), ('time_unit:large', 20), ('value_edit_between_steps', 50),
                     ('bc_edit_between_steps:left', 5), ('bc_edit_between_steps:right', 5), ('bc_edit_between_steps:bottom', 5), ('bc_edit_between_steps:top', 5),
                     ('bc_edit_between_steps:back', 3), ('bc_edit_between_steps:front', 3)):
         if agg['cov'].get(k, 0) < need:
